@@ -114,7 +114,7 @@ def repeat_cases(rng, tier):
     effects read what its unconditional group writes (props/c03.plant_read_write)"""
     from .c03 import plant_read_write
     cases = []
-    for _ in range({"quick": 10, "thorough": 80}[tier]):
+    for _ in range({"quick": 8, "thorough": 80}[tier]):
         w = G.gen_world(rng, max_actions=2)
         info = plant_read_write(rng, w, guarded=rng.random() < 0.7)
         en = plant_enabler(rng, w, info)
@@ -166,7 +166,7 @@ def shape_cases(rng, tier):
                 "guard_shapes": shapes}
         same = [c for c in calls if c[1][-1] == c[1][-2]]
         diff = [c for c in calls if c[1][-1] != c[1][-2]]
-        for _k in range(2):
+        for _k in range(1 if tier == "quick" else 2):
             plan = [rng.choice(same if (same and (i % 2 == 0 or not diff)) else diff) for i in range(rng.choice([3, 4, 5, 6]))]
             rng.shuffle(plan)
             noise = rng.random() < 0.4
